@@ -47,6 +47,11 @@ VALUES = {"x": [1.75, -0.375], "y": [-2.25, 0.625], "rho": [1.375, 3.5], "phi": 
           "t": [6.5, 9.25], "tau": [2.125, 0.75]}
 INIT = {2: (1.5, 0.75), 3: (1.5, 0.75, 0.875), 4: (1.5, 0.75, 0.875, 2.5)}
 OPERAND = {2: (-0.625, 2.25), 3: (-0.625, 2.25, -1.375), 4: (-0.625, 2.25, -1.375, 3.5)}
+OPERAND_T = {2: (0.0, 2.25), 3: (-0.625, 2.25, 0.0), 4: (-0.625, 2.25, 0.0, 3.5)}  # a purely transverse kick (z exactly 0; 2D: x exactly 0)
+
+
+def _operand(ev, dim):
+    return OPERAND_T[dim] if len(ev) > 3 and ev[3] == "transverse" else OPERAND[dim]
 
 
 def bounds(tier):
@@ -74,6 +79,7 @@ def events(dim, flavor, tier, depth):
         for osys in dict.fromkeys(other_systems):
             for ofl in (("generic", "momentum") if depth <= 2 else ("generic",)):
                 ev.append((opn, list(osys), ofl))
+        ev.append((opn, list(L.CART[dim]), "generic", "transverse"))
     for opn in ("*=", "/="):
         for f in (2.0, -0.5):
             ev.append((opn, f))
@@ -155,7 +161,7 @@ def apply_event(v, ev, dim, layer):
         setattr(v, ev[1], num(layer, ev[2]))
         return v, None
     if kind in ("+=", "-="):
-        other = build(dim, tuple(ev[1]), ev[2], layer, OPERAND[dim])
+        other = build(dim, tuple(ev[1]), ev[2], layer, _operand(ev, dim))
         if kind == "+=":
             v += other
         else:
@@ -275,9 +281,9 @@ def check_step(res, v, before_id, before_type, before_slots, before_sys, before_
         res.count("previous_state_not_representable")
         return True
     if kind in ("+=", "-="):
-        o = tuple(mpf(c) for c in OPERAND[dim])
+        o = tuple(mpf(c) for c in _operand(ev, dim))
         if layer == "L2":
-            ost = S.stored(Vec("o", OPERAND[dim], set()), tuple(ev[1]))
+            ost = S.stored(Vec("o", _operand(ev, dim), set()), tuple(ev[1]))
             o = G.from_stored(tuple(ev[1]), tuple(mpf(float(x)) for x in ost))
         exp = tuple(p + q for p, q in zip(prev_c, o)) if kind == "+=" else tuple(p - q for p, q in zip(prev_c, o))
     else:
